@@ -24,6 +24,10 @@ UNITS = ["kpc", "Mpc", "rad", "deg", "arcmin", "arcsec", "kpc/h", "Mpc/h"]
 def resolve_cosmology(name):
     import astropy.cosmology
 
+    if name and name.startswith("flcdm-curved"):
+        # curved model: transverse and line-of-sight comoving distances differ
+        _, h0, om0, ode0 = name.split(":")
+        return astropy.cosmology.LambdaCDM(H0=float(h0), Om0=float(om0), Ode0=float(ode0))
     if name and name.startswith("flcdm"):
         # an unnamed model (cosmology.name is None), different in every case
         _, h0, om0 = name.split(":")
@@ -45,7 +49,8 @@ def gen_case(rng, seed, idx):
         duplicates=bool(rng.random() < 0.15),
         randoms=str(rng.choice(["unk", "ref", "both"])),
         count_rr=bool(rng.random() < 0.6),
-        cosmology=str(rng.choice(["Planck15", "WMAP9", f"flcdm:{rng.uniform(55, 80):.2f}:{rng.uniform(0.2, 0.45):.3f}"])),
+        cosmology=str(rng.choice(["Planck15", "WMAP9", f"flcdm:{rng.uniform(55, 80):.2f}:{rng.uniform(0.2, 0.45):.3f}",
+                                  f"flcdm-curved:{rng.uniform(55, 80):.2f}:{rng.uniform(0.2, 0.45):.3f}:{rng.uniform(0.9, 1.2):.3f}"])),
     )
 
 
